@@ -810,6 +810,8 @@ impl ElementRaw {
         // set the parent of the new element to the current element
         let mut move_element_locked = move_element.0.write();
         move_element_locked.parent = ElementOrModel::Element(self_weak);
+        // the moved element is now contained in the files of its new parent
+        move_element_locked.file_membership.clear();
         let dest_path = if move_element_locked.is_identifiable() {
             let new_name = move_element_locked.make_unique_item_name(model, &dest_path_prefix)?;
             format!("{dest_path_prefix}/{new_name}")
@@ -927,6 +929,12 @@ impl ElementRaw {
         // delete all reference origin info for elements under move_element
         for (path, elem) in &original_refs {
             model_src.remove_reference_origin(path, elem.downgrade());
+        }
+
+        // the files of the source model mean nothing in the destination model:
+        // the moved elements are now contained in the files of their new parent
+        for (_, sub_elem) in move_element.elements_dfs() {
+            sub_elem.0.write().file_membership.clear();
         }
 
         // set the parent of the new element to the current element
